@@ -114,7 +114,7 @@ def doLex (f : List String) : String :=
   match f with
   | [tb, lm, tx] =>
     let t := parseTable tb
-    showRes showToks (tokenize symInterp t (lmOf lm) (unhex tx))
+    "toks=" ++ showRes showToks (tokenize symInterp t (lmOf lm) (unhex tx))
   | _ => "BADREQ"
 
 /-- evaluate a flat expression on the symbolic variable vector -/
@@ -130,7 +130,7 @@ def doFlat (f : List String) : String :=
     let text := unhex tx
     let I := symInterp
     let wo := Flat.parseWoCompile I t (lmOf lm) text
-    let modelPart :=
+    let modelPart := "toksimpl=" ++ showRes showToks (tokenize I t (lmOf lm) text) ++ "\t" ++
       match wo with
       | .error e => "wo=" ++ showFail e
       | .ok fw =>
@@ -162,6 +162,7 @@ def doFlat (f : List String) : String :=
           | .ok fw => decide ((fw.nodes, fw.ops) = c.flat I t vars 0)
           | .error _ => false
         "spec=" ++ (match c.denote I t ρ with | some v => v.show | none => "NONE") ++
+        "\tstoks=" ++ showToks (c.toks I) ++
         "\tflatspec=" ++ (if flatOk then "ok" else "DIFF") ++
         "\tspec_nf=" ++ (match c.denote I t ρ with | some v => (v.assocNF flagged).show | none => "NONE") ++
         "\tsclones=" ++ toString ((vars.map (fun x => c.varOcc.count x - 1)).sum) ++
@@ -305,13 +306,14 @@ def doVars (f : List String) : String :=
     let modelPart := match fl, dp with
       | .ok f, .ok d =>
         let n := f.vars.length
+        let flagged : Nat → Bool := fun k => (((t[k]?).bind (·.bin)).map (·.comm)).getD false
         let exact := f.eval I (symVars n)
         let ar := (List.range (kmax + 1)).map (fun k =>
           let vs := symVars k
           let rel := f.evalRelaxed I vs
           let drel := d.evalRelaxed I vs
           let same := fun (r : Res Sym) => match r, exact with
-            | .ok a, .ok b => if a == b then "=" else "#"
+            | .ok a, .ok b => if a.assocNF flagged == b.assocNF flagged then "=" else "#"
             | _, _ => "-"
           toString k ++ ":" ++ cls (f.eval I vs) ++ cls rel ++ same rel ++ cls (f.evalConsuming I vs) ++
             cls (d.eval I vs) ++ cls drel ++ same drel)
@@ -339,12 +341,24 @@ def doVars (f : List String) : String :=
     modelPart ++ specPart
   | _ => "BADREQ"
 
+/-- `damage <table> <lm> <text> <kind>`: acceptance class of the three parsers -/
+def doDamage (f : List String) : String :=
+  match f with
+  | [tb, lm, tx, _] =>
+    let t := parseTable tb
+    let text := unhex tx
+    let I := symInterpT t
+    "r=" ++ cls (Flat.parse I t (lmOf lm) text) ++ cls (Flat.parseWoCompile I t (lmOf lm) text) ++
+      cls (Deep.parse I t (lmOf lm) text)
+  | _ => "BADREQ"
+
 def handle (line : String) : String :=
   match splitOn line "\t" with
   | "lex" :: rest => doLex rest
   | "flat" :: rest => doFlat rest
   | "forms" :: rest => doForms rest
   | "vars" :: rest => doVars rest
+  | "damage" :: rest => doDamage rest
   | "order" :: rest => doOrder rest
   | "track" :: rest => doTrack rest
   | _ => "BADKIND"
